@@ -589,6 +589,12 @@ class World:
             return model.side(m, which, keep)
 
         def mk_real(g):
+            # optionally after the graph has been hashed / compared, which
+            # builds reactant, product and transition structure internally
+            if op.get("after") == "hash":
+                hash(g)
+            elif op.get("after") == "eq":
+                g == g      # noqa: B015
             fn = g.reactant if which == "R" else g.product
             return fn(keep_attributes=keep)
         self._derive(op, [op["src"]], op["dst"], mk_model, mk_real, kind, {"C08"})
